@@ -119,6 +119,8 @@ static struct {
 	char rundir[512];
 	uid_t daemon_uid;
 	double late_p, late_max, exact_p, jit_max;
+	/* time a posix_spawn() takes: with probability COST_P up to COST_MAX s */
+	double cost_p, cost_max;
 	struct usr_s usr[MAXUSR];
 	int nusr;
 	struct life_s life[MAXLIFE];
@@ -181,10 +183,27 @@ static void tr_resched(ev_periodic *w, double now, double ret);
 static void tr_startstop(const char *what, const char *kind, void *w);
 static void spool_check(const char *after);
 
+/* the wall clock runs on while the daemon executes a callback */
+static double wall_abs;
+static int resched_all_ctx;
+
 static double
 vnow(void)
 {
-	return evm_now();
+	double n = evm_now();
+	return n > wall_abs ? n : wall_abs;
+}
+
+static void
+spend(double d)
+{
+	wall_abs = vnow() + d;
+}
+
+static void
+tr_resched_all(int begin)
+{
+	resched_all_ctx = begin;
 }
 
 
@@ -954,6 +973,12 @@ __wrap_posix_spawn(pid_t *pid, const char *path,
 		};
 	}
 	*pid = cur_spawn.pid;
+	/* spawning takes time */
+	{
+		double u = u01(hash3(P.seed, (uint64_t)cur_spawn.pid, 0x700));
+		double v = u01(hash3(P.seed, (uint64_t)cur_spawn.pid, 0x701));
+		spend(u < P.cost_p ? 0.001 + v * P.cost_max : 0.0002 + 0.0003 * v);
+	}
 	return 0;
 }
 
@@ -1316,6 +1341,10 @@ tr_resched(ev_periodic *w, double now, double ret)
 	h_int("fin", w->reschedule_cb == NULL);
 	h_int("past", w->cb == unsched);
 	h_int("nrun", t->nrun);
+	if (resched_all_ctx) {
+		/* not an expiry: libev rescheduling all periodics */
+		h_str("ctx", "all", -1);
+	}
 	h_end();
 }
 
@@ -1551,6 +1580,9 @@ load_plan(const char *fn)
 			snprintf(P.rundir, sizeof(P.rundir), "%s", tok[1]);
 		} else if (!strcmp(tok[0], "daemonuid") && nt >= 2) {
 			P.daemon_uid = atoi(tok[1]);
+		} else if (!strcmp(tok[0], "spawncost") && nt >= 3) {
+			P.cost_p = atof(tok[1]);
+			P.cost_max = atof(tok[2]);
 		} else if (!strcmp(tok[0], "late") && nt >= 5) {
 			P.late_p = atof(tok[1]);
 			P.late_max = atof(tok[2]);
@@ -1689,7 +1721,9 @@ run_epoch(int ep, const char *histfn)
 		.tr_resched = tr_resched, .tr_cb = tr_cb,
 		.tr_cb_done = tr_cb_done, .tr_start = host_start,
 		.tr_stop = host_stop, .contract = host_contract,
+		.clock = vnow, .tr_resched_all = tr_resched_all,
 	};
+	wall_abs = 0.;
 	evm_reset(P.ep_start[ep]);
 	h_begin("epoch", vnow());
 	h_int("n", ep);
